@@ -78,6 +78,10 @@ func (c *Compiler) expr(e ast.Expr) {
 			c.B.Val(nil)
 			return
 		}
+		if k, ok := c.info.Uses[e].(*types.Const); ok && k.Pkg() == nil && (e.Name == "true" || e.Name == "false") {
+			c.B.Val(e.Name == "true") // the predeclared constants as Go values, without a source node
+			return
+		}
 		c.B.Val(c.refObj(e))
 	case *ast.ParenExpr:
 		c.expr(e.X)
@@ -227,7 +231,18 @@ func (c *Compiler) selector(e *ast.SelectorExpr) {
 			if path == "unsafe" || path == "C" {
 				unsupported("package %s", path)
 			}
-			ref := c.importPkg(path).Ref(e.Sel.Name)
+			pr := c.importPkg(path)
+			name := e.Sel.Name
+			if base, ok := overloadBase(name); ok && pr.Types.Scope().Lookup("XGoPackage") != nil {
+				// call through the overload family, as XGo source does; gogen resolves it
+				if o := pr.TryRef(base); o != nil {
+					c.Overloaded++
+					c.tagRef(path, e.Sel.Name)
+					c.B.Val(o)
+					return
+				}
+			}
+			ref := pr.Ref(name)
 			c.tagRef(path, e.Sel.Name)
 			c.B.Val(ref)
 			return
@@ -237,6 +252,16 @@ func (c *Compiler) selector(e *ast.SelectorExpr) {
 		unsupported("method expression")
 	}
 	c.expr(e.X)
+	if base, ok := overloadBase(e.Sel.Name); ok {
+		if sel := c.info.Selections[e]; sel != nil && sel.Obj().Pkg() != nil && sel.Obj().Pkg() != c.src && sel.Obj().Pkg().Scope().Lookup("XGoPackage") != nil {
+			c.importPkg(sel.Obj().Pkg().Path()) // makes gogen register the overload families
+			if o, _, _ := types.LookupFieldOrMethod(sel.Recv(), true, sel.Obj().Pkg(), base); o != nil {
+				c.Overloaded++
+				c.B.MemberVal(base)
+				return
+			}
+		}
+	}
 	c.B.MemberVal(e.Sel.Name)
 }
 
@@ -431,4 +456,13 @@ func (c *Compiler) compositeLit(e *ast.CompositeLit, _ types.Type) {
 	if ptr {
 		c.B.UnaryOp(token.AND)
 	}
+}
+
+// overloadBase splits Name__N into Name (XGo's naming of overload candidates).
+func overloadBase(name string) (string, bool) {
+	n := len(name)
+	if n > 3 && name[n-3] == '_' && name[n-2] == '_' && (name[n-1] >= '0' && name[n-1] <= '9' || name[n-1] >= 'a' && name[n-1] <= 'z') {
+		return name[:n-3], true
+	}
+	return "", false
 }
